@@ -153,6 +153,8 @@ class Interp(Engine):
             val = self.invoke(f, [obj], {})
             obj.fields[name] = val
             return val
+        if kind == "raw" and callable(v) and isinstance(obj, Obj) and (("__items__" in obj.fields) or (name == "__init__" and isinstance(obj.cls, type) and issubclass(obj.cls, list))):
+            return NativeMethod(self.models.foreign_method(v, name), obj, name)
         if kind == "raw" and name in ("__init__", "__init_subclass__") and callable(v):
             return NativeMethod(lambda eng, recv, a, k: None, obj, name)
         return v
